@@ -29,6 +29,7 @@ type Ctx struct {
 	uOf    map[string]string // signed term -> its unsigned (two's complement) representation
 	rawFacts [][]string      // typing facts collected while building the body of a quantified hypothesis
 	caseConds []caseCond
+	bounded  string // non-empty once an incompletely unrolled loop has been passed
 	quants   map[string]*quantInfo
 	qorder   []string
 	defs     map[string]string // define-fun name -> body
@@ -229,6 +230,7 @@ func (c *Ctx) oblige(o *Obl, pc, cond string) *Obl {
 	if c.curHist != nil {
 		o.hist = new(big.Int).Set(c.curHist)
 	}
+	o.Bounded = c.bounded
 	c.skolemize(o, pc, cond)
 	if o.Expect == "" {
 		o.Expect = "unsat"
